@@ -1,0 +1,15 @@
+//go:build verif && leakcheck
+
+package vgirpc
+
+import "github.com/apache/arrow-go/v18/arrow/memory"
+
+// VerifC41LeakCurrentAlloc returns the bytes currently outstanding in the
+// shared checked allocator every framework allocation goes through in a
+// leakcheck build (read-only view for /verif check C41).
+func VerifC41LeakCurrentAlloc() int { return leakCheckAllocator().CurrentAlloc() }
+
+// VerifC41LeakAssert reports every outstanding framework allocation (size,
+// allocation site, retained frames) through t and compares the total with
+// want. It only reads the allocator's bookkeeping.
+func VerifC41LeakAssert(t memory.TestingT, want int) { leakCheckAllocator().AssertSize(t, want) }
